@@ -178,6 +178,34 @@ func (g *gen) enumerate() []Case {
 		}
 	}
 
+	// ---- names that are not variables (some are names of default / registered functions): nil
+	for env := 0; env < nEnvs; env++ {
+		for _, x := range []string{"nope", "title", "upper", "lower", "len", "default", "json", "trim", "string", "int", "greet", "add", "isBig", "typ", "sum", "round", "abs", "max", "first", "keys"} {
+			e := Expr{K: "path", V: x}
+			out = append(out, Case{Fam: "absent", Env: env, E: &e, Pos: allExprPos})
+		}
+	}
+	// ---- values printed through their own String method, struct values into func(T)
+	for env := 0; env < nEnvs; env++ {
+		addE(env, p("sv"))
+		addE(env, bin("+", p("sv.Key"), ls("x", "d")))
+		addE(env, call("recname", p("st")))
+		addE(env, call("recname", p("rs[0]")))
+		addE(env, bin("==", call("recname", p("st")), ls("q", "s")))
+		addE(env, call("pname", p("prec")))
+		for _, st := range [][]Stage{{{F: "typ"}}, {{F: "show", A: []Arg{{K: "int", V: "1"}}}}} {
+			if v, cst, err := evalPipe(Case{Fam: "pipe", Env: env, Init: "sv", Stages: st}, envOf(env)); cst == convOK && err == nil {
+				out = append(out, pipeCase(env, "sv", st, v))
+			}
+		}
+		for _, init := range []string{"st", "rs[0]"} {
+			st := []Stage{{F: "recname"}}
+			if v, cst, err := evalPipe(Case{Fam: "pipe", Env: env, Init: init, Stages: st}, envOf(env)); cst == convOK && err == nil {
+				out = append(out, pipeCase(env, init, st, v))
+			}
+		}
+	}
+
 	// ---- paths in vuego's own syntax as whole expressions, every environment
 	for env := 0; env < nEnvs; env++ {
 		for _, x := range ownPaths {
@@ -388,6 +416,9 @@ func (g *gen) enumerate() []Case {
 			if pp, ok := ptrPaths[f.params[0]]; ok {
 				okInit = pp[0]
 			}
+			if f.params[0] == "rec" {
+				okInit = "st"
+			}
 			np := len(f.params)
 			one := func(pt string) Arg {
 				if pt == "bool" {
@@ -395,6 +426,9 @@ func (g *gen) enumerate() []Case {
 				}
 				if pp, ok := ptrPaths[pt]; ok {
 					return Arg{K: "path", V: pp[0]}
+				}
+				if pt == "rec" {
+					return Arg{K: "path", V: "st"}
 				}
 				return srcs[pt][0]
 			}
